@@ -370,6 +370,13 @@ var Items = []Item{
 	{ID: "map-missing-struct", Decls: "type Mv2%N% struct {\n\ta uint64\n\tb bool\n}", Core: "m := make(map[uint64]Mv2%N%)\n\tm[1] = Mv2%N%{a: 5, b: true}\n\tx := m[3]\n\ty := m[1]\n\tif !x.b {\n\t\tr = x.a + y.a + 1\n\t}", NoCtx: true},
 	{ID: "map-missing-slice", Core: "m := make(map[uint64][]uint64)\n\tm[1] = make([]uint64, 2)\n\tr = uint64(len(m[3]))*10 + uint64(len(m[1])) + 1", NoCtx: true},
 	{ID: "map-missing-pointer", Core: "m := make(map[uint64]*uint64)\n\tp := new(uint64)\n\tm[1] = p\n\tif m[3] == nil {\n\t\tr = 1\n\t}\n\tif m[1] != nil {\n\t\tr += 2\n\t}", NoCtx: true},
+	// builtins with fewer explicit arguments than operands: append(s), and a multi-valued call that supplies
+	// both operands (reported by the seed agent of C07-8: copy(g()) made goose panic)
+	{ID: "append-single-argument", Setup: "s := make([]uint64, 2)", Core: "s2 := append(s)\n\tr = uint64(len(s2))"},
+	{ID: "copy-forwarded-call", Decls: "func two%N%() ([]uint64, []uint64) {\n\ta := make([]uint64, 2)\n\tb := make([]uint64, 3)\n\tb[0] = 7\n\treturn a, b\n}", Core: "r = uint64(copy(two%N%()))"},
+	{ID: "append-forwarded-call", Decls: "func sv%N%() ([]uint64, uint64) {\n\treturn make([]uint64, 1), 9\n}", Core: "s2 := append(sv%N%())\n\tr = s2[1] + uint64(len(s2))"},
+	{ID: "delete-forwarded-call", Decls: "func mk%N%(m map[uint64]uint64) (map[uint64]uint64, uint64) {\n\treturn m, 1\n}", Setup: "m := make(map[uint64]uint64)\n\tm[1] = 2", Core: "delete(mk%N%(m))\n\tr = uint64(len(m)) + 1"},
+	{ID: "call-forwarded-results", Decls: "func pr%N%() (uint64, uint64) {\n\treturn 3, 4\n}\n\nfunc ad%N%(a uint64, b uint64) uint64 {\n\treturn a*10 + b\n}", Core: "r = ad%N%(pr%N%())"},
 	// two-valued map lookup × syntactic position (parenthesised, assignment instead of definition, nested, as
 	// key, in a call argument next to a two-result call; seeded change C01-25 and two real defects)
 	{ID: "map-comma-ok-parenthesised", Core: "m := make(map[uint64]uint64)\n\tm[1] = 5\n\t_, ok := (m[1])\n\tif ok {\n\t\tr = 1\n\t}", NoCtx: true},
